@@ -60,7 +60,7 @@ pub fn check(args: &[String]) -> i32 {
     let tier = arg_value(args, "--tier").unwrap_or_else(|| "quick".to_string());
     let seed = arg_u64(args, "--seed", 1);
     let workers = arg_u64(args, "--workers", 16).max(1);
-    let default_runs = if tier == "thorough" { 20_000_000 } else { 100_000 };
+    let default_runs = if tier == "thorough" { 20_000_000 } else { 80_000 };
     let runs = arg_u64(args, "--runs", default_runs);
     let max_seconds = arg_u64(args, "--max-seconds", if tier == "thorough" { 600 } else { 0 });
     let evidence = arg_value(args, "--evidence").expect("--evidence");
